@@ -188,7 +188,7 @@ fn desc_of(i: usize) -> String {
 /// Class `i` of the jar. It refers to every class of the universe as super class / interface, in
 /// field and method descriptors, in `new`, `invokespecial` and `getfield` operands, and to two
 /// further classes (rotating) at the remaining instruction, constant and annotation positions.
-pub fn fixture_class(i: usize) -> SClass {
+pub fn fixture_class(i: usize, variant: Option<usize>) -> SClass {
 	let n = CLS.len();
 	let mut c = skeleton(CLS[i]);
 	c.version = [(55, 0), (61, 0), (52, 0), (61, 0)][i];
@@ -261,6 +261,9 @@ pub fn fixture_class(i: usize) -> SClass {
 	m.parameters = Some(vec![(Some(js("p0")), 0x0010), (None, 0)]);
 	c.methods.push(m);
 	c.methods.push(method_with("n", "()V", vec![SInsn::Simple(op::RETURN)]));
+	// a method no other class declares
+	let only = only_method(i);
+	c.methods.push(method_with(&only.0, &only.1, vec![SInsn::Simple(op::RETURN)]));
 	c.methods.push(SMethod { access: 0x0401, name: js("dflt"), desc: js(&format!("(){}", desc_of(a))), annotation_default: Some(SElementValue::Class(js(&desc_of(b)))), ..Default::default() });
 
 	match i {
@@ -276,11 +279,97 @@ pub fn fixture_class(i: usize) -> SClass {
 		2 => {},
 		_ => c.permitted_subclasses = Some(vec![js(CLS[2]), js(CLS[5])]),
 	}
+	if let Some(v) = variant {
+		leftovers(&mut c, i, v);
+		more_positions(&mut c, i, v);
+	}
 	cfmodel::gen::normalize(&mut c);
 	c
 }
 
+/// number of variant jars (see `leftovers`)
+pub const VARIANTS: usize = 4;
+
+/// Variant jars: the classes of the input already carry nesting attributes (left over by an obfuscator or by an
+/// earlier, different nesting). Class `i` of variant `v` gets the leftovers of kind `(i + v) % 4`, so over the four
+/// variants every class has had every kind:
+///  0: EnclosingMethod naming the next jar class and the method it declares;
+///  1: EnclosingMethod naming the jar class after that, no method; an InnerClasses entry for the class itself with
+///     another outer class, another simple name and other flags than any table gives it;
+///  2: EnclosingMethod naming a class that is not in the jar and a method `n()V`; an InnerClasses entry for the class
+///     itself without outer class and simple name;
+///  3: no EnclosingMethod; an InnerClasses entry for the class itself that says exactly what the table entry
+///     "member class of the next jar class, derived inner name" says.
+/// Tables that name the same class and method as the leftover EnclosingMethod occur in the table space as well.
+pub fn leftovers(c: &mut SClass, i: usize, v: usize) {
+	let next = CLS[(i + 1) % N_PRESENT];
+	let own = |outer: Option<&str>, name: Option<&str>, flags: u16| SInnerClass { inner: js(CLS[i]), outer: outer.map(js), name: name.map(js), flags };
+	let ic = c.inner_classes.get_or_insert_with(Vec::new);
+	match (i + v) % 4 {
+		0 => c.enclosing_method = Some((js(next), Some((js(M_PRESENT.0), js(M_PRESENT.1))))),
+		1 => {
+			c.enclosing_method = Some((js(CLS[(i + 2) % N_PRESENT]), None));
+			ic.push(own(Some(next), Some("Old"), 0x0001));
+		},
+		2 => {
+			c.enclosing_method = Some((js(CLS[4]), Some((js("n"), js("()V")))));
+			ic.push(own(None, None, 0));
+		},
+		_ => ic.push(own(Some(next), Some(SIMPLE[i]), FLAGS[i])),
+	}
+	if c.inner_classes.as_ref().is_some_and(|v| v.is_empty()) {
+		c.inner_classes = None;
+	}
+}
+
+/// Variant jars also refer to classes at the positions the base jar does not have: getstatic/putfield, every kind
+/// of method handle, invokedynamic (bootstrap handle, static arguments, descriptor), a dynamic constant, and type
+/// annotations on the class, a field, a method and inside code.
+pub fn more_positions(c: &mut SClass, i: usize, v: usize) {
+	let n = CLS.len();
+	let y = (i + v + 1) % n;
+	let z = (y + 3) % n;
+	let (dy, dz) = (desc_of(y), desc_of(z));
+	let h = |kind: u8, name: &str, desc: &str, interface: bool| SHandle { kind, member: mref(CLS[y], name, desc), interface };
+	let boot = SBootstrap {
+		handle: h(6, "bsm", &format!("(Ljava/lang/invoke/MethodHandles$Lookup;Ljava/lang/String;Ljava/lang/invoke/MethodType;{dz})Ljava/lang/invoke/CallSite;"), false),
+		args: vec![SConst::Class(js(CLS[y])), SConst::MethodType(js(&format!("({dy}){dz}"))), SConst::Handle(h(8, "<init>", &format!("({dz})V"), false)), SConst::Str(js(CLS[y])), SConst::Class(js(&format!("[{dz}")))],
+	};
+	let mut insns = vec![
+		SInsn::Field(op::GETSTATIC, mref(CLS[y], "sf", &dz)),
+		SInsn::Field(op::PUTFIELD, mref(CLS[z], "pf", &format!("[{dy}"))),
+		SInsn::Ldc(SConst::Handle(h(1, "hf", &dz, false))),
+		SInsn::Ldc(SConst::Handle(h(2, "hs", &format!("[{dz}"), false))),
+		SInsn::Ldc(SConst::Handle(h(3, "hf", &dy, false))),
+		SInsn::Ldc(SConst::Handle(h(4, "hs", &dz, false))),
+		SInsn::Ldc(SConst::Handle(h(5, "hv", &format!("({dz})V"), false))),
+		SInsn::Ldc(SConst::Handle(h(7, "hp", &format!("(){dz}"), false))),
+		SInsn::Ldc(SConst::Handle(h(7, "hp", &format!("(){dy}"), true))),
+		SInsn::Ldc(SConst::Handle(h(9, "hi", &format!("({dy}{dz})V"), true))),
+		SInsn::InvokeDynamic(SDynamic { bootstrap: boot.clone(), name: js("run"), desc: js(&format!("({dy}[{dz}){dz}")) }),
+		SInsn::New(js(CLS[z])),
+	];
+	if c.version.0 >= 55 {
+		insns.push(SInsn::Ldc(SConst::Dynamic(Box::new(SDynamic { bootstrap: SBootstrap { handle: h(6, "cbsm", &format!("(Ljava/lang/invoke/MethodHandles$Lookup;Ljava/lang/String;Ljava/lang/Class;){dy}"), false), args: vec![SConst::Class(js(CLS[z]))] }, name: js("k"), desc: js(&dy) }))));
+	}
+	insns.push(SInsn::Simple(op::RETURN));
+	let len = insns.len() as Idx;
+	let tann = |target: STarget, ty: &str, val: &str| STypeAnnotation { target, path: vec![], annotation: ann(ty, vec![("c", SElementValue::Class(js(val)))]) };
+	let mut m = method_with("r", "()V", insns);
+	if let Some(code) = &mut m.code {
+		code.visible_type = vec![tann(STarget::Offset { target_type: 0x44, at: len - 3 }, &dy, &dz)];
+		code.invisible_type = vec![tann(STarget::LocalVar { target_type: 0x40, table: vec![(0, len, 1)] }, &dz, &dy)];
+	}
+	m.annotations.visible_type = vec![tann(STarget::Empty(0x14), &dz, &dy)];
+	c.methods.push(m);
+	c.annotations.visible_type = vec![tann(STarget::Supertype(0), &dy, &dz)];
+	c.annotations.invisible_type = vec![tann(STarget::Supertype(65535), &dz, &format!("[{dy}"))];
+	c.fields[2].annotations.invisible_type = vec![tann(STarget::Empty(0x13), &dy, &dz)];
+}
+
 pub struct Fixture {
+	/// `None`: the base jar; `Some(v)`: variant jar `v`
+	pub variant: Option<usize>,
 	pub models: Vec<SClass>,
 	pub jar: ParsedJar<ClassRepr, Vec<u8>>,
 	/// class name → declared (name, descriptor) pairs
@@ -298,7 +387,12 @@ pub fn duke_round_trip(bytes: &[u8]) -> Result<SClass, String> {
 
 impl Fixture {
 	pub fn new() -> Fixture {
-		let models: Vec<SClass> = (0..N_PRESENT).map(fixture_class).collect();
+		Fixture::build(None)
+	}
+
+	/// the base jar (`None`) or one of the `VARIANTS` variant jars
+	pub fn build(variant: Option<usize>) -> Fixture {
+		let models: Vec<SClass> = (0..N_PRESENT).map(|i| fixture_class(i, variant)).collect();
 		let mut bytes = Vec::new();
 		let mut methods = BTreeMap::new();
 		for m in &models {
@@ -332,7 +426,7 @@ impl Fixture {
 		}
 		let (name, data) = &others[3];
 		put(&mut jar, name, JarEntryEnum::Other(data.clone().unwrap_or_default()));
-		Fixture { models, jar, methods, others }
+		Fixture { variant, models, jar, methods, others }
 	}
 
 	pub fn present(&self, class: &str) -> bool {
@@ -381,7 +475,7 @@ pub struct Out {
 const CACHE_CAP: usize = 4096;
 thread_local! {
 	static PARSE_CACHE: RefCell<HashMap<Vec<u8>, Result<Arc<SClass>, String>>> = RefCell::new(HashMap::new());
-	static RENAME_CACHE: RefCell<HashMap<(usize, Vec<(String, String)>), Arc<SClass>>> = RefCell::new(HashMap::new());
+	static RENAME_CACHE: RefCell<HashMap<(Option<usize>, usize, Vec<(String, String)>), Arc<SClass>>> = RefCell::new(HashMap::new());
 }
 
 fn parse_cached(bytes: &[u8]) -> Result<Arc<SClass>, String> {
@@ -403,7 +497,7 @@ fn parse_cached(bytes: &[u8]) -> Result<Arc<SClass>, String> {
 pub fn renamed_fixture(fx: &Fixture, i: usize, m: &Map) -> Arc<SClass> {
 	RENAME_CACHE.with(|c| {
 		let mut c = c.borrow_mut();
-		let key = (i, m.iter().map(|(a, b)| (a.clone(), b.clone())).collect::<Vec<_>>());
+		let key = (fx.variant, i, m.iter().map(|(a, b)| (a.clone(), b.clone())).collect::<Vec<_>>());
 		if let Some(r) = c.get(&key) {
 			return r.clone();
 		}
@@ -557,9 +651,18 @@ fn demanded_simple_name(e: &Entry) -> Option<Option<String>> {
 	}
 }
 
-/// Compares the real result with one allowed outcome. Returns (key, detail) differences.
-pub fn compare(fx: &Fixture, t: &[Entry], alt: &Alt, out: &Out) -> Vec<(String, String)> {
-	let mut d: Vec<(String, String)> = Vec::new();
+/// What `compare` found: differences (key, detail) and, for the counters, what the case exercised.
+#[derive(Default)]
+pub struct Cmp {
+	pub diffs: Vec<(String, String)>,
+	pub notes: Vec<&'static str>,
+}
+
+/// Compares the real result with one allowed outcome.
+pub fn compare(fx: &Fixture, t: &[Entry], alt: &Alt, out: &Out) -> Cmp {
+	let mut cmp = Cmp::default();
+	let mut notes: Vec<&'static str> = Vec::new();
+	let d = &mut cmp.diffs;
 	for (entry, key, what) in &out.broken {
 		d.push((key.clone(), format!("entry {entry:?}: {what}")));
 	}
@@ -632,7 +735,7 @@ pub fn compare(fx: &Fixture, t: &[Entry], alt: &Alt, out: &Out) -> Vec<(String, 
 	}
 	if name_trouble {
 		// the expected contents are derived from the names; with wrong names they would only echo the above
-		return d;
+		return cmp;
 	}
 
 	// 5. contents: attributes of nested classes, then every other fact with all references rewritten
@@ -652,20 +755,41 @@ pub fn compare(fx: &Fixture, t: &[Entry], alt: &Alt, out: &Out) -> Vec<(String, 
 		};
 		let nest = entry_of(&old).filter(|(_, a)| **a).map(|(e, _)| e);
 		let actual: &SClass = &c.class;
-		let mut extra_inner: Vec<SInnerClass> = actual.inner_classes.clone().unwrap_or_default();
+		// what the class of the input said, with every reference rewritten (a created class said nothing)
+		let mi = fx.models.iter().position(|m| m.this_class.to_string_lossy() == old);
+		let expected: Option<Arc<SClass>> = mi.map(|mi| renamed_fixture(fx, mi, &alt.names));
+		let input_inner: Vec<SInnerClass> = expected.as_ref().and_then(|e| e.inner_classes.clone()).unwrap_or_default();
+		let input_em = expected.as_ref().and_then(|e| e.enclosing_method.clone());
+		// the InnerClasses entries of the result that are not entries of the input (as a multiset)
+		let mut rest: Vec<SInnerClass> = actual.inner_classes.clone().unwrap_or_default();
+		let mut input_gone: Vec<SInnerClass> = Vec::new();
+		for w in &input_inner {
+			match rest.iter().position(|x| x == w) {
+				Some(p) => {
+					rest.remove(p);
+				},
+				None => input_gone.push(w.clone()),
+			}
+		}
 		match nest {
 			Some(e) => {
 				let ty = e.ty.name();
 				let new = alt.new_name(&e.class);
-				match extra_inner.iter().position(|ic| ic.inner.to_string_lossy() == new) {
-					None => d.push((format!("nest_jar:inner-classes-entry-missing:{ty}"), format!("class {new:?} (nested {ty} class) has no InnerClasses entry for itself: {:?}", actual.inner_classes))),
+				let want_outer = if e.ty == Ty::Inner { Some(JS::new(&alt.new_name(&e.encl))) } else { None };
+				let want_name = demanded_simple_name(e);
+				let says_the_nest = |ic: &SInnerClass| ic.inner.to_string_lossy() == new && ic.outer == want_outer && ic.flags == e.flags && want_name.as_ref().is_none_or(|w| ic.name == w.as_deref().map(JS::new));
+				let leftover_self_entry = input_inner.iter().any(|ic| ic.inner.to_string_lossy() == new);
+				match rest.iter().position(&says_the_nest).or_else(|| rest.iter().position(|ic| ic.inner.to_string_lossy() == new)) {
+					// an entry of the input that already says exactly what the nest says records the nest as well
+					None if input_inner.iter().any(&says_the_nest) && input_gone.is_empty() => notes.push("leftover:inner-classes-entry-of-the-input-already-records-the-nest"),
+					None => d.push((format!("nest_jar:inner-classes-entry-missing:{ty}"), format!("class {new:?} (nested {ty} class) has no InnerClasses entry for itself that the input did not have: {:?}", actual.inner_classes))),
 					Some(pos) => {
-						let ic = extra_inner.remove(pos);
-						let want_outer = if e.ty == Ty::Inner { Some(JS::new(&alt.new_name(&e.encl))) } else { None };
+						let ic = rest.remove(pos);
+						let before = d.len();
 						if ic.outer != want_outer {
 							d.push((format!("nest_jar:inner-classes-outer-wrong:{ty}"), format!("class {new:?}: outer class {:?}, expected {want_outer:?}", ic.outer)));
 						}
-						if let Some(want) = demanded_simple_name(e) {
+						if let Some(want) = &want_name {
 							if ic.name != want.as_deref().map(JS::new) {
 								d.push((format!("nest_jar:inner-classes-simple-name-wrong:{ty}"), format!("class {new:?} (inner name {:?}): simple name {:?}, expected {want:?}", e.inner, ic.name)));
 							}
@@ -673,49 +797,66 @@ pub fn compare(fx: &Fixture, t: &[Entry], alt: &Alt, out: &Out) -> Vec<(String, 
 						if ic.flags != e.flags {
 							d.push(("nest_jar:inner-classes-flags-wrong".into(), format!("class {new:?}: flags {:#06x}, the table says {:#06x}", ic.flags, e.flags)));
 						}
+						if d.len() == before && leftover_self_entry {
+							notes.push(if input_inner.iter().any(&says_the_nest) { "leftover:inner-classes-entry-equal-to-the-nest's-next-to-it" } else { "leftover:inner-classes-entry-for-the-class-itself-next-to-the-nest's" });
+						}
 					},
 				}
 				let want_em = (JS::new(&alt.new_name(&e.encl)), e.method.as_ref().map(|(n, de)| (JS::new(n), JS::new(&map_desc(de, &alt.names)))));
 				match (&actual.enclosing_method, e.ty) {
-					(Some(_), Ty::Inner) => d.push(("nest_jar:enclosing-method-on-member-class".into(), format!("class {new:?} is a member (inner) class and got an EnclosingMethod attribute {:?}", actual.enclosing_method))),
-					(None, Ty::Inner) => {},
+					// the statement asks for no EnclosingMethod on a member class and is silent on one the input already had
+					(Some(em), Ty::Inner) if input_em.as_ref() == Some(em) => notes.push("info:leftover:enclosing-method-kept-on-member-class"),
+					(Some(_), Ty::Inner) => d.push(("nest_jar:enclosing-method-on-member-class".into(), format!("class {new:?} is a member (inner) class and got an EnclosingMethod attribute {:?} (the input had {input_em:?})", actual.enclosing_method))),
+					(None, Ty::Inner) => {
+						if input_em.is_some() {
+							notes.push("info:leftover:enclosing-method-removed-from-member-class");
+						}
+					},
 					(None, _) => d.push((format!("nest_jar:enclosing-method-missing:{ty}"), format!("class {new:?} (nested {ty} class) has no EnclosingMethod attribute"))),
 					(Some(em), _) => {
 						if em.0 != want_em.0 {
-							d.push(("nest_jar:enclosing-method-class-wrong".into(), format!("class {new:?}: EnclosingMethod names class {:?}, expected {:?}", em.0, want_em.0)));
+							d.push(("nest_jar:enclosing-method-class-wrong".into(), format!("class {new:?}: EnclosingMethod names class {:?}, expected {:?} (the input had {input_em:?})", em.0, want_em.0)));
 						}
 						if em.1 != want_em.1 {
-							d.push(("nest_jar:enclosing-method-method-wrong".into(), format!("class {new:?}: EnclosingMethod names method {:?}, expected {:?}", em.1, want_em.1)));
+							d.push(("nest_jar:enclosing-method-method-wrong".into(), format!("class {new:?}: EnclosingMethod names method {:?}, expected {:?} (the input had {input_em:?})", em.1, want_em.1)));
+						}
+						if *em == want_em {
+							match &input_em {
+								Some(i) if *i == want_em => notes.push("leftover:enclosing-method-equal-to-the-nest's"),
+								Some(i) if i.0 != want_em.0 => notes.push("leftover:enclosing-method-of-another-class-replaced"),
+								Some(_) => notes.push("leftover:enclosing-method-of-another-method-replaced"),
+								None => {},
+							}
 						}
 					},
 				}
 			},
 			None => {
-				if actual.enclosing_method.is_some() {
-					d.push(("nest_jar:nesting-attributes-on-class-that-is-not-nested".into(), format!("class {:?} got an EnclosingMethod attribute {:?}", actual.this_class, actual.enclosing_method)));
+				// a class that is not nested keeps what it had, references rewritten
+				if actual.enclosing_method != input_em {
+					let key = match (&input_em, &actual.enclosing_method) {
+						(None, _) => "nest_jar:nesting-attributes-on-class-that-is-not-nested",
+						(Some(_), None) => "class.enclosing_method:dropped",
+						(Some(_), Some(_)) => "class.enclosing_method:changed",
+					};
+					d.push((key.into(), format!("class {:?} is not nested by the table: EnclosingMethod {:?}, expected {input_em:?}", actual.this_class, actual.enclosing_method)));
+				} else if let (Some(em), Some(mi)) = (&input_em, mi) {
+					notes.push(if fx.models[mi].enclosing_method.as_ref() == Some(em) { "leftover:enclosing-method-passed-through" } else { "leftover:enclosing-method-passed-through-with-rewritten-reference" });
 				}
 			},
 		}
-		let Some(mi) = fx.models.iter().position(|m| m.this_class.to_string_lossy() == old) else {
+		let Some(expected) = expected else {
 			// a created class: the statement asks for its existence (and its own nesting attributes) only
 			continue;
 		};
-		let expected = renamed_fixture(fx, mi, &alt.names);
 		// InnerClasses entries that describe a nest of the table may additionally be recorded anywhere (JVMS 4.7.6
 		// wants them in the enclosing class too; the statement does not ask for it)
-		let mut want_inner = expected.inner_classes.clone().unwrap_or_default();
-		extra_inner.retain(|ic| {
-			if let Some(p) = want_inner.iter().position(|w| w == ic) {
-				want_inner.remove(p);
-				return false;
-			}
-			!nest_entries.iter().any(|(e, w)| w.inner == ic.inner && w.outer == ic.outer && w.flags == ic.flags && (demanded_simple_name(e).is_none() || w.name == ic.name))
-		});
-		if !want_inner.is_empty() {
-			d.push(("class.inner_classes:dropped".into(), format!("class {:?}: InnerClasses entries of the input are gone or changed: {want_inner:?}; got {:?}", actual.this_class, c.class.inner_classes)));
+		rest.retain(|ic| !nest_entries.iter().any(|(e, w)| w.inner == ic.inner && w.outer == ic.outer && w.flags == ic.flags && (demanded_simple_name(e).is_none() || w.name == ic.name)));
+		if !input_gone.is_empty() {
+			d.push(("class.inner_classes:dropped".into(), format!("class {:?}: InnerClasses entries of the input are gone or changed: {input_gone:?}; got {:?}", actual.this_class, c.class.inner_classes)));
 		}
-		if !extra_inner.is_empty() {
-			d.push(("class.inner_classes:invented".into(), format!("class {:?}: unexpected InnerClasses entries {extra_inner:?}", actual.this_class)));
+		if !rest.is_empty() {
+			d.push(("class.inner_classes:invented".into(), format!("class {:?}: unexpected InnerClasses entries {rest:?}", actual.this_class)));
 		}
 		if !same_except_nesting(&expected, actual) {
 			let mut e2 = (*expected).clone();
@@ -726,7 +867,8 @@ pub fn compare(fx: &Fixture, t: &[Entry], alt: &Alt, out: &Out) -> Vec<(String, 
 			}
 		}
 	}
-	d
+	cmp.notes = notes;
+	cmp
 }
 
 /// equality of everything but the two nesting attributes (which are judged separately)
